@@ -243,6 +243,16 @@ def sk_interp(seq, V, w):
     seq.add(Pulse.ConstantAmplitude(V(8, 1.0), wf2, 0.0), "g")
 
 
+def sk_interp1d(seq, V, w):
+    """An interpolator other than the default, given POSITIONALLY (the abstract format has no field for it: refusal, never silence)."""
+    from pulser import Pulse
+    from pulser.waveforms import InterpolatedWaveform
+
+    seq.declare_channel("g", "rydberg_global")
+    wf = InterpolatedWaveform(V(0, 100, True), V.arr(1, [0.0, 1.0, 0.5, 0.0]), [0.0, 0.2, 0.7, 1.0], "interp1d")
+    seq.add(Pulse.ConstantDetuning(wf, V(2, -1.0), 0.0), "g")
+
+
 def sk_eom(seq, V, w):
     seq.declare_channel("g", "rydberg_global")
     seq.enable_eom_mode("g", V(0, 2.0), V(1, 0.5), optimal_detuning_off=V(2, -10.0), correct_phase_drift=True)
@@ -250,6 +260,18 @@ def sk_eom(seq, V, w):
     seq.delay(V(6, 48, True), "g")
     seq.modify_eom_setpoint("g", V(7, 1.0), V(8, 0.0), optimal_detuning_off=V(9, 5.0), correct_phase_drift=True)
     seq.add_eom_pulse("g", 60, V(10, 1.2))
+    seq.disable_eom_mode("g", correct_phase_drift=True)
+
+
+def sk_eom2(seq, V, w):
+    """Both beams of the EOM are controlled: three detuning-off options, whose spacing depends on the amplitude; the requested off-detuning
+    sits between two of them so that the choice depends on the amplitude the options are computed for."""
+    seq.declare_channel("g", "rydberg_global")
+    seq.delay(V(0, 48, True), "g")
+    seq.enable_eom_mode("g", V(1, 8.0), V(2, 0.0), optimal_detuning_off=V(3, -3.6), correct_phase_drift=True)
+    seq.add_eom_pulse("g", V(4, 100, True), V(5, 0.3))
+    seq.modify_eom_setpoint("g", V(6, 4.0), V(7, 0.0), optimal_detuning_off=V(8, -1.2))
+    seq.add_eom_pulse("g", 60, 0.0)
     seq.disable_eom_mode("g", correct_phase_drift=True)
 
 
@@ -275,6 +297,7 @@ def sk_index(seq, V, w):
     seq.target_index(V(3, 0, True), "l")
     seq.phase_shift_index(V(4, 0.4), V(5, 1, True), basis="digital")
     seq.add(Pulse.ConstantPulse(64, V(6, 2.0), 0.0, V(7, 0.0)), "l")
+    seq.phase_shift(V(8, 0.125), basis="digital")  # no targets: every qubit of the register as it is when the call is (re)played
 
 
 def sk_xy(seq, V, w):
@@ -305,9 +328,9 @@ def sk_literals(seq, V, w):
     seq.add(Pulse.ConstantPulse(16, 1.0, 0.0, 0.0, post_phase_shift=0.0), "g", protocol="no-delay")
 
 
-SKELETONS = {"literals": sk_literals, "maxval": sk_maxval, "basic": sk_basic, "waveforms": sk_waveforms, "interp": sk_interp, "eom": sk_eom, "dmm": sk_dmm,
+SKELETONS = {"literals": sk_literals, "maxval": sk_maxval, "basic": sk_basic, "waveforms": sk_waveforms, "interp": sk_interp, "interp1d": sk_interp1d, "eom": sk_eom, "eom2": sk_eom2, "dmm": sk_dmm,
              "index": sk_index, "xy": sk_xy}
-WORLD = corner("real", name="c08", qubits=3, clock=4, min_dur=16)
+WORLD = corner("real", name="c08", qubits=3, clock=4, min_dur=16, eom=dict(controlled_beams=["BLUE", "RED"]))
 
 
 def alt(base, integer, pos):
@@ -395,6 +418,17 @@ def cases(tier):
         out.append(("mappable",) + mapping)
     out += pair_cases(tier)
     out += fracidx_cases(tier)
+    # templates that are built while they are still being written: every skeleton x every single position as a plain variable x a build
+    # (with the other assignment) just before each of its calls
+    for name in SKELETONS:
+        pos = positions_of(name, w)
+        first = min(pos)
+        for p in sorted(pos):
+            if applicable("var", pos[p][0], pos[p][1], p):
+                for k in range(2, 11):
+                    out.append(("progi", name, {p: "var"}, k, True))  # mappable register: a build always assigns the variables
+                    if p != first and applicable("var", pos[first][0], pos[first][1], first):
+                        out.append(("progi", name, {first: "var", p: "var"}, k, False))
     return out
 
 
@@ -411,7 +445,28 @@ def mappable_template(w):
     return Sequence(MappableRegister(L, *w.qids), w.device), dict(zip(w.qids, ids))
 
 
-def run_prog(name, chosen, mappable=False):
+class _Interrupted:
+    """The sequence as the skeleton sees it; just before its k-th call reaches the sequence, `hook` runs (the template is built there)."""
+
+    def __init__(self, seq, k, hook):
+        self.__dict__.update(_seq=seq, _k=k, _hook=hook, _n=0, fired=False)
+
+    def __getattr__(self, attr):
+        val = getattr(self._seq, attr)
+        if not callable(val) or attr.startswith("_") or attr in ("declare_variable", "is_parametrized", "current_phase_ref"):
+            return val
+
+        def call(*a, **kw):
+            self.__dict__["_n"] += 1
+            if self._n == self._k:
+                self.__dict__["fired"] = True
+                self._hook()
+            return val(*a, **kw)
+
+        return call
+
+
+def run_prog(name, chosen, mappable=False, interrupt=None):
     w = World(WORLD)
     pos = positions_of(name, w)
     A = {p: b for p, (b, i) in pos.items()}
@@ -443,12 +498,46 @@ def run_prog(name, chosen, mappable=False):
         else:
             tmpl = w.fresh(apply_prefix=False)
         TV = Vals("template", chosen, A, tmpl)
+        target = tmpl
+        if interrupt is not None:
+            # every variable is declared up front (learnt from a dry run on a scratch template), and the template is BUILT with assignment
+            # B just before its `interrupt`-th call: whatever that build leaves behind must not leak into the calls written afterwards
+            from pulser.parametrized import Variable
+
+            if direct["B"] is None or direct["A"] is None:
+                return [("@interrupt-not-applicable", "")]
+            scratch = mappable_template(w)[0] if mappable else w.fresh(apply_prefix=False)
+            dry = Vals("template", chosen, A, scratch)
+            try:
+                SKELETONS[name](scratch, dry, w)
+            except Exception:
+                return [("@interrupt-not-applicable", "")]
+            if dry.skip or not dry.vars:
+                return [("@interrupt-not-applicable", "")]
+            for vn, vobj in dry.vars.items():
+                dv = scratch.declared_variables[vn]
+                if isinstance(vobj, Variable):
+                    TV.vars[vn] = tmpl.declare_variable(vn, size=dv.size, dtype=dv.dtype)
+                else:
+                    TV.vars[vn] = tmpl.declare_variable(vn, dtype=dv.dtype)
+            TV.arrays = dict(dry.arrays)
+
+            def hook():
+                vals_b = TV.var_values(B)
+                if vals_b is not None:
+                    tmpl.build(**vals_b, **qmap)
+
+            target = _Interrupted(tmpl, interrupt, hook)
         try:
-            SKELETONS[name](tmpl, TV, w)
+            SKELETONS[name](target, TV, w)
         except Exception as e:
+            if interrupt is not None:
+                return [(f"C08:template-construction-raises-after-a-build:{name}:{type(e).__name__}", f"{chosen}, built before call {interrupt}: {e}"[:250])]
             return [(f"C08:template-construction-raises:{name}:{type(e).__name__}", f"{chosen}: {e}"[:250])]
         if TV.skip:
             return [("@expression-not-applicable", "")]
+        if interrupt is not None and not target.fired:
+            return [("@interrupt-not-reached", "")]
         TV.scramble()
         if chosen and not tmpl.is_parametrized():
             return [(f"C08:template-not-parametrized:{name}", f"{chosen}")]
@@ -733,6 +822,9 @@ def worker(case):
         return run_fracidx(*case[1:])
     if case[0] == "pairs":
         return run_pairs(case[1], case[2], case[3])
+    if case[0] == "progi":
+        out = run_prog(case[1], case[2], mappable=case[4], interrupt=case[3])
+        return [(fp.replace("C08:", "C08:built-while-being-written:", 1) if fp.startswith("C08:") else fp, d) for fp, d in out]
     if case[0] in ("prog", "progm"):
         out = run_prog(case[1], case[2], mappable=case[0] == "progm")
         if case[0] == "progm":  # distinct fingerprints for the mappable variant
@@ -754,6 +846,9 @@ def run(tier, seed):
                 if c[0] in ("pairs", "fracidx"):
                     res.add(Violation(fp, d, {"engine": "progx", "case": list(c)}, size=0))
                     continue
+                if c[0] == "progi":
+                    res.add(Violation(fp, d, {"engine": "progx", "case": [c[0], c[1], {str(k): v for k, v in c[2].items()}, c[3], c[4]]}, size=1))
+                    continue
                 res.add(Violation(fp, d, {"engine": "progx", "case": [c[0], c[1], c[2] if c[0] not in ("prog", "progm") else {str(k): v for k, v in c[2].items()}]},
                                   size=len(c[2]) if c[0] in ("prog", "progm") else 0))
     res.coverage = dict(
@@ -773,6 +868,8 @@ def run(tier, seed):
 
 def replay(payload):
     c = payload["case"]
+    if c[0] == "progi":
+        return [Violation(fp, d, payload) for fp, d in worker((c[0], c[1], {int(k): v for k, v in c[2].items()}, c[3], c[4])) if not fp.startswith("@")]
     if c[0] in ("prog", "progm"):
         return [Violation(fp, d, payload) for fp, d in worker((c[0], c[1], {int(k): v for k, v in c[2].items()})) if not fp.startswith("@")]
     if c[0] == "pairs":
